@@ -38,7 +38,7 @@ def judge_repeat(ctx, cid, x, y, r, gx, gy, info, what="repeat"):
     if len(gx) != r * n or len(gy) != r * n:
         ctx.violation(what + ":length", cid, {"got": [len(gx), len(gy)], "want": r * n, "case": info})
         return False
-    if not np.array_equal(gy, np.tile(yf, r)):
+    if not np.array_equal(gy, np.tile(yf, r), equal_nan=True):
         ctx.violation(what + ":values_not_tiled", cid, {"got": gy, "case": info})
         return False
     if not np.array_equal(gx[:n], xf):
@@ -87,6 +87,23 @@ def run_case(ctx, kind_, idx):
                 r = int(rng.integers(1, 13))
                 xin, xk = gen.as_container(rng, x)
                 yin, yk = gen.as_container(rng, y)
+                if rng.integers(0, 10) == 0:
+                    # values that are flags (link busy / above threshold) or have gaps: Python / NumPy booleans, and None
+                    # the way json.load leaves a null - the values repeated are 0.0 / 1.0 and NaN
+                    t = int(rng.integers(0, 3))
+                    flags = rng.integers(0, 2, len(x)).astype(bool)
+                    if t == 0:
+                        yin, yk, y = flags.copy(), "bool array", flags.astype(float)
+                    elif t == 1:
+                        yin, yk, y = [bool(v) for v in flags], "list of bool", flags.astype(float)
+                    else:
+                        y = np.asarray(y, dtype=float).copy()
+                        gaps_ = rng.integers(0, len(x), max(1, len(x) // 5))
+                        yin = [float(v) for v in y]
+                        for g_ in gaps_:
+                            yin[int(g_)] = None
+                            y[int(g_)] = np.nan
+                        yk = "list with None"
                 r_arg, rt = gen.count_arg(rng, r)
                 info.update({"r": r, "r_type": rt, "containers": [xk, yk]})
                 gx, gy = callform.call(rng, repeat, "process.repeat", [xin, yin, r_arg])
@@ -94,7 +111,7 @@ def run_case(ctx, kind_, idx):
                 ctx.monitor("c12:repeat")
                 if not judge_repeat(ctx, cid, x, y, r, gx, gy, info):
                     return
-                if r == 1 and not (np.array_equal(gx, x) and np.array_equal(gy, y)):
+                if r == 1 and not (np.array_equal(gx, x) and np.array_equal(gy, y, equal_nan=True)):
                     ctx.violation("repeat_once_not_identity", cid, {"case": info})
                     return
                 if r >= 2 and distinct_steps:
